@@ -312,6 +312,9 @@ def _own(case, ctx):
                                       case, desc=desc)
                     newly = (changed & (OCC | MIS)) & now
                     was_invalid = (prev & (ref.INVALID_BITS | OCC | MIS)) != 0
+                    if cfg["pipeline"][key].get("interpolated_disparity") == "sgm":
+                        # sgm: a mismatch touching an occlusion becomes an occlusion (and stays one when nothing is visible)
+                        was_invalid &= ~(((prev & MIS) != 0) & ((now & OCC) != 0) & ((now & MIS) == 0))
                     if ((newly != 0) & was_invalid).any():
                         i = np.argwhere((newly != 0) & was_invalid)[0]
                         ctx.violation("cross-check-flag-on-already-invalid-pixel",
